@@ -263,6 +263,59 @@ type Guard struct {
 // derived from the dominator tree: for every dominator D ending in an If, the
 // edge D->S holds if S dominates b (or is b) and S has D as its only predecessor.
 func Guards(b *ssa.BasicBlock) []Guard {
+	return expandPhiGuards(rawGuards(b), 0)
+}
+
+// expandPhiGuards: a guard on a boolean phi that was computed by a chain of && (all
+// other edges are the constant false) and is known to be true implies the value of
+// its remaining edge and every guard of the block that edge comes from; dually for
+// || and a phi known to be false. ("ok := a && b; if ok {…}" guards like "if a && b {…}".)
+func expandPhiGuards(gs []Guard, depth int) []Guard {
+	if depth > 4 {
+		return gs
+	}
+	var res []Guard
+	for _, g := range gs {
+		res = append(res, g)
+		phi, ok := g.Cond.(*ssa.Phi)
+		if !ok || !isBoolType(phi.Type()) {
+			continue
+		}
+		// the edges that are not the absorbing constant (false for a conjunction known true, true for a disjunction known false)
+		var rest []int
+		for i, e := range phi.Edges {
+			if c, isC := constBool(e); isC && c != g.Val {
+				continue
+			}
+			rest = append(rest, i)
+		}
+		if len(rest) != 1 {
+			continue
+		}
+		i := rest[0]
+		var extra []Guard
+		if c, isC := constBool(phi.Edges[i]); !isC {
+			_ = c
+			cv, val := normCond(phi.Edges[i], g.Val)
+			extra = append(extra, Guard{Cond: cv, Val: val, If: g.If})
+		}
+		pred := phi.Block().Preds[i]
+		extra = append(extra, rawGuards(pred)...)
+		// the last instruction of pred may itself be the If that decides the edge
+		if ifi, ok := pred.Instrs[len(pred.Instrs)-1].(*ssa.If); ok {
+			for k, sx := range pred.Succs {
+				if sx == phi.Block() && pred.Succs[1-k] != sx {
+					cv, val := normCond(ifi.Cond, k == 0)
+					extra = append(extra, Guard{Cond: cv, Val: val, If: ifi})
+				}
+			}
+		}
+		res = append(res, expandPhiGuards(extra, depth+1)...)
+	}
+	return res
+}
+
+func rawGuards(b *ssa.BasicBlock) []Guard {
 	var res []Guard
 	cur := b
 	for cur != nil {
